@@ -45,6 +45,10 @@ func init() {
 }
 
 func c04Run(c *vk.Case) {
+	if c.Index%16 == 15 {
+		c04StoredPair(c)
+		return
+	}
 	multiPairScenario(c, "", c.Index%2 == 1, c.R.Chance(1, 3), 0)
 }
 
